@@ -163,12 +163,103 @@ def rng(ty):
     return (-(1 << (w - 1)), (1 << (w - 1)) - 1) if ty[0] == 'i' else (0, (1 << w) - 1)
 
 
+_BOUNDS = {}          # name of a fresh symbolic integer -> (lo, hi), for the Interp currently running
+_BCACHE = {}
+
+
+def ibounds(t):
+    """conservative interval of an integer term (None = unknown); used to drop wrap-arounds that cannot happen"""
+    if isinstance(t, int):
+        return (t, t)
+    i = t.get_id()
+    r = _BCACHE.get(i)
+    if r is not None:
+        return r if r != 0 else None
+    r = _ibounds(t)
+    _BCACHE[i] = r if r is not None else 0
+    return r
+
+
+def _ibounds(t):
+    if z3.is_int_value(t):
+        v = t.as_long()
+        return (v, v)
+    k = t.decl().kind()
+    if k == z3.Z3_OP_UNINTERPRETED and t.num_args() == 0:
+        return _BOUNDS.get(t.decl().name())
+    ch = t.children()
+    if k == z3.Z3_OP_ADD:
+        lo = hi = 0
+        for c in ch:
+            b = ibounds(c)
+            if b is None:
+                return None
+            lo += b[0]
+            hi += b[1]
+        return (lo, hi)
+    if k == z3.Z3_OP_SUB:
+        b = ibounds(ch[0])
+        if b is None:
+            return None
+        lo, hi = b
+        for c in ch[1:]:
+            b = ibounds(c)
+            if b is None:
+                return None
+            lo -= b[1]
+            hi -= b[0]
+        return (lo, hi)
+    if k == z3.Z3_OP_UMINUS:
+        b = ibounds(ch[0])
+        return None if b is None else (-b[1], -b[0])
+    if k == z3.Z3_OP_MUL and len(ch) == 2:
+        a, b = ibounds(ch[0]), ibounds(ch[1])
+        if a is None or b is None:
+            return None
+        ps = [a[0] * b[0], a[0] * b[1], a[1] * b[0], a[1] * b[1]]
+        return (min(ps), max(ps))
+    if k == z3.Z3_OP_ITE:
+        a, b = ibounds(ch[1]), ibounds(ch[2])
+        if a is None or b is None:
+            return None
+        return (min(a[0], b[0]), max(a[1], b[1]))
+    if k in (z3.Z3_OP_IDIV, z3.Z3_OP_DIV) and z3.is_int_value(ch[1]) and ch[1].as_long() > 0:
+        a = ibounds(ch[0])
+        if a is None or a[0] < 0:
+            return None
+        d = ch[1].as_long()
+        return (a[0] // d, a[1] // d)
+    if k == z3.Z3_OP_MOD and z3.is_int_value(ch[1]) and ch[1].as_long() > 0:
+        m = ch[1].as_long()
+        a = ibounds(ch[0])
+        if a is not None and a[0] >= 0 and a[1] < m:
+            return a
+        return (0, m - 1)
+    return None
+
+
 def wrap(t, ty):
     lo, hi = rng(ty)
     m = hi - lo + 1
     if isinstance(t, int):
         return ((t - lo) % m) + lo
+    b = ibounds(t)
+    if b is not None and b[0] >= lo and b[1] <= hi:
+        return t
     return z3.If(z3.And(t >= lo, t <= hi), t, ((t - lo) % m) + lo)
+
+
+def in_range(t, ty):
+    """python True if the term provably fits the type, else a formula / python bool"""
+    lo, hi = rng(ty)
+    if isinstance(t, int):
+        return lo <= t <= hi
+    b = ibounds(t)
+    if b is not None and b[0] >= lo and b[1] <= hi:
+        return True
+    if b is not None and (b[1] < lo or b[0] > hi):
+        return False
+    return z3.And(t >= lo, t <= hi)
 
 
 def mk(n, ty):
@@ -433,7 +524,24 @@ class Program:
             _, th, tr, method, _x = key
             c = self.traitimpl.get((th.lstrip('&'), tr, method))
             if c:
+                if len(c) > 1 and tr in ('From', 'TryFrom'):
+                    m = re.search(r' as (?:[\w:]*::)?(?:From|TryFrom)<(.*)>>::\w+$', raw)
+                    if m:
+                        src = type_head(m.group(1))
+                        c2 = [b for b in c if b.param_tys and type_head(b.param_tys[0]) == src]
+                        if c2:
+                            c = c2
                 return self.pick(c, raw)
+            if tr in ('Into', 'TryInto'):
+                # blanket impl: <X as Into<Y>>::into == <Y as From<X>>::from
+                m = re.search(r' as (?:[\w:]*::)?(?:Into|TryInto)<(.*)>>::\w+$', raw)
+                if m:
+                    tgt = type_head(m.group(1))
+                    c = self.traitimpl.get((tgt, 'From' if tr == 'Into' else 'TryFrom', 'from' if tr == 'Into' else 'try_from'))
+                    if c:
+                        c2 = [b for b in c if b.param_tys and type_head(b.param_tys[0]) == th]
+                        if len(c2) >= 1:
+                            return self.pick(c2, raw)
             return None
         segs = key[1]
         if len(segs) >= 2:
@@ -516,7 +624,9 @@ class Interp:
         self.trace = None
         self.overrides = {}
         self.log = []
-        self.max_blocks = 5_000_000
+        self.max_blocks = 50_000_000
+        _BOUNDS.clear()
+        _BCACHE.clear()
 
     # ---- solver plumbing
     def _check(self, extra=None):
@@ -623,8 +733,15 @@ class Interp:
     def fresh(self, name, ty, lo=None, hi=None):
         v = z3.Int(name)
         l, h = rng(ty)
-        self.assume(z3.And(v >= (l if lo is None else lo), v <= (h if hi is None else hi)))
+        l, h = (l if lo is None else lo), (h if hi is None else hi)
+        self.assume(z3.And(v >= l, v <= h))
+        _BOUNDS[name] = (l, h)
         return SInt(v, ty)
+
+    def declare_bounds(self, term, lo, hi):
+        """tell the interval analysis about a scenario-created integer constant (also assumes the range)"""
+        self.assume(z3.And(term >= lo, term <= hi))
+        _BOUNDS[term.decl().name()] = (lo, hi)
 
     def fresh_bool(self, name):
         return z3.Bool(name)
@@ -867,9 +984,10 @@ class Interp:
 
     def adt(self, r, frame):
         _, path, kind, fields = r
-        ent = self.prog.adt_cache.get(path)
+        crate = frame['__body__'].kind[1] if frame is not None else None
+        ent = self.prog.adt_cache.get((path, crate))
         if ent is None:
-            ent = self.prog.adt_cache[path] = self.adt_resolve(path)
+            ent = self.prog.adt_cache[(path, crate)] = self.adt_resolve(path, crate)
         what, d, extra = ent
         if what == 'struct':
             if kind == 'named':
@@ -889,16 +1007,16 @@ class Interp:
             return d(self, kind, [(x[0], self.operand(x[1], frame)) if kind == 'named' else self.operand(x, frame) for x in fields])
         raise Unsupported('unknown ADT %r' % path)
 
-    def adt_resolve(self, path):
+    def adt_resolve(self, path, crate=None):
         segs = [x for x in strip_generics(path).split('::') if x]
         src = self.prog.src
-        d = src.find_adt(segs)
+        d = src.find_adt(segs, crate)
         if isinstance(d, tuple):
             raise Unsupported('ambiguous ADT %r' % path)
         if d is not None and d.kind == 'struct':
             return ('struct', d, None)
         if len(segs) >= 2:
-            e = src.find_adt(segs[:-1])
+            e = src.find_adt(segs[:-1], crate)
             if isinstance(e, tuple):
                 raise Unsupported('ambiguous ADT %r' % path)
             if e is not None and e.kind == 'enum':
@@ -976,8 +1094,8 @@ class Interp:
         if op.endswith('WithOverflow'):
             base = op[:-12]
             wide = x + y if base == 'Add' else x - y if base == 'Sub' else x * y
-            lo, hi = rng(ty)
-            ovf = (wide < lo or wide > hi) if cc else z3.Or(wide < lo, wide > hi)
+            ir = in_range(wide, ty)
+            ovf = (not ir) if isinstance(ir, bool) else z3.Not(ir)
             return Agg('()', [Cell(SInt(wrap(wide, ty), ty)), Cell(ovf)])
         if op in ('Add', 'AddUnchecked'):
             return SInt(wrap(x + y, ty), ty)
